@@ -38,6 +38,7 @@ func Harness_C08_run() {
 	s := NewServer(mux, &ServerOptions{Concurrency: 2, AllowPush: nondetBool("push")})
 	closeUnblocks := nondetBool("close-unblocks-recv")
 	ch := newVerifChan(s.mu, closeUnblocks)
+	ch.in = make(chan []byte, 8)
 	s.Start(ch)
 
 	// traffic before the stop
@@ -46,6 +47,9 @@ func Harness_C08_run() {
 		ch.in <- verifReq("1", "call")
 	}
 	nnotes := nondetChoice("notes", 3)
+	if gateNote && nnotes == 2 && nondetBool("third-note") {
+		nnotes = 3 // the first runs (gated), the second waits at the barrier, the third stays queued
+	}
 	noteID := ""
 	if nondetBool("notes-spell-null-id") {
 		noteID = "null" // "id":null counts as absent: still a notification
